@@ -2,16 +2,16 @@ import Bpmn.Props.C01Fragment
 import Bpmn.Props.EngineCurrent
 /-!
 `Props/C01Fragment` at the configuration extracted from the current /repo tree (`Gen/Engine`, regenerated on every
-run): the three repaired switches are off today, so for every program without inclusive gateways the engine model at
-today's facts IS the token game. If an edit of /repo moves one of the three facts, `current_repaired` stops type-checking
+run): the four repaired switches are off today, so for every program without inclusive gateways the engine model at
+today's facts IS the token game. If an edit of /repo moves one of the four facts, `current_repaired` stops type-checking
 (a broken obligation that names the fact).
 -/
 namespace Bpmn.Props.C01FragmentCurrent
 open Bpmn.Model Bpmn.Model.Engine Bpmn.Props.C01Fragment Bpmn.Props.C01Conformance Bpmn.Props.EngineCurrent
 
 /-- flow.Start continues on the first effective flow; the sub-process monitor listens on the inner tracer; the inner
-start events are re-armed on every activation -/
-theorem current_repaired : Repaired faithful := ⟨by decide, by decide, by decide⟩
+start events are re-armed on every activation; every token passes an intermediate throw event -/
+theorem current_repaired : Repaired faithful := ⟨by decide, by decide, by decide, by decide⟩
 
 theorem current_variants : faithful.eagerSettle = false ∧ faithful.lateJoin = false := ⟨rfl, rfl⟩
 
